@@ -1819,6 +1819,28 @@ def t_code_append_only(facts, res, tier):
             if x.get("k") == "assign" and expr_text(x["l"]).replace(" ", "") == "self.code":
                 res.fail(key, facts.where(fn, x), "%s replaces `self.code`" % fn["name"])
         res.inst(key, True, {"function": fn["name"], "uses_of_self_code": sorted(set(uses))})
+    # which functions of AssemblyCode can change a line that is already there: `set` (the placeholder of a pending STY cctmp, at the line
+    # number the generator holds) during generation, optimize and check_branches once generation is over - and no other
+    LINE_WRITERS = {"set": "fills the placeholder at the line number it is given", "optimize": "runs after generation", "check_branches": "runs after generation"}
+    for fn in facts.fns:
+        if not fn["file"].endswith("assemble.rs") or "AssemblyCode" not in fn.get("qual", "") or fn.get("test"):
+            continue
+        rewrites = []
+        for x in walk(fn["body"]):
+            if x.get("k") in ("assign", "assignop"):
+                l = x["l"]
+                while isinstance(l, dict) and l.get("k") in ("unary", "paren"):
+                    l = l["e"]
+                lt = expr_text(l).replace(" ", "")
+                if lt.startswith("self.code[") or re.match(r"^\*?self\.code\.(get_mut|last_mut|first_mut|iter_mut)", lt):
+                    rewrites.append(x)
+            if x.get("k") == "mcall" and x["method"] in ("remove", "insert", "swap", "swap_remove", "retain", "drain", "truncate", "clear", "split_off", "pop", "iter_mut") and expr_text(x["recv"]).replace(" ", "") == "self.code":
+                rewrites.append(x)
+        if rewrites:
+            key = "T-CODE-APPEND-ONLY:line-writer:%s" % fn["name"]
+            res.inst(key, True, {"function": fn["name"], "admitted": LINE_WRITERS.get(fn["name"])})
+            if fn["name"] not in LINE_WRITERS:
+                res.fail(key, facts.where(fn, rewrites[0]), "AssemblyCode::%s rewrites or removes a line of `self.code` (`%s`): outside set / optimize / check_branches nothing changes a line the generator has already emitted (a restore of Y dropped retroactively, a placeholder moved)" % (fn["name"], expr_text(rewrites[0])[:50]))
     if n == 0:
         raise AnchorMissing("AssemblyCode::append_* / set not found")
 
